@@ -13,6 +13,7 @@ import (
 	"context"
 	"fmt"
 	"io"
+	"net"
 	"net/http"
 	"sort"
 	"strings"
@@ -34,15 +35,38 @@ type gate struct {
 	mu      sync.Mutex
 	next    chan struct{} // one token = one more chunk for every streaming handler of this upstream
 	ctxDone []<-chan struct{}
+	// an upgraded (exec-like) stream held by this upstream has ended
+	upgradeEnded bool
 }
 
 func install(u *e2e.Upstream) *gate {
 	g := &gate{next: make(chan struct{}, 64)}
+	_ = g.upgradeEnded
 	u.Respond = func(w http.ResponseWriter, r *http.Request, c *e2e.Captured) {
 		g.mu.Lock()
 		g.ctxDone = append(g.ctxDone, r.Context().Done())
 		g.mu.Unlock()
 		switch {
+		case r.Header.Get("Upgrade") != "":
+			// exec / attach / port-forward: switch protocols, then hold the stream open until the peer goes away
+			conn, buf, err := w.(http.Hijacker).Hijack()
+			if err != nil {
+				return
+			}
+			defer conn.Close()
+			_, _ = buf.WriteString("HTTP/1.1 101 Switching Protocols\r\nConnection: Upgrade\r\nUpgrade: " + r.Header.Get("Upgrade") + "\r\n\r\n")
+			_ = buf.Flush()
+			_, _ = conn.Write([]byte("hello-from-upstream"))
+			_ = conn.SetReadDeadline(time.Now().Add(60 * time.Second))
+			b := make([]byte, 64)
+			for {
+				if _, err := conn.Read(b); err != nil {
+					g.mu.Lock()
+					g.upgradeEnded = true
+					g.mu.Unlock()
+					return
+				}
+			}
 		case strings.HasSuffix(r.URL.Path, "/slow"):
 			select {
 			case <-r.Context().Done():
@@ -129,7 +153,7 @@ func (s *stream) endsWithin(d time.Duration) bool {
 
 func policies(podsTo, nodesTo *e2e.Upstream) []proxyv1alpha1.DispatchPolicy {
 	rule := func(res string) []proxyv1alpha1.DispatchPolicyRule {
-		return []proxyv1alpha1.DispatchPolicyRule{{Verbs: []string{"*"}, APIGroups: []string{"*"}, Resources: []string{res}}}
+		return []proxyv1alpha1.DispatchPolicyRule{{Verbs: []string{"*"}, APIGroups: []string{"*"}, Resources: []string{res, res + "/exec"}}}
 	}
 	return []proxyv1alpha1.DispatchPolicy{
 		{Strategy: proxyv1alpha1.RoundRobin, Rules: rule("pods"), UpstreamSubset: []string{podsTo.URL()}},
@@ -198,6 +222,7 @@ func scenario(c *ev.Check, removal, phase string) {
 	}
 	// victim on a / e1
 	var victim *stream
+	var upgraded net.Conn
 	victimDone := make(chan error, 1)
 	switch phase {
 	case "blocked before headers":
@@ -222,6 +247,28 @@ func scenario(c *ev.Check, removal, phase string) {
 			c.EngineError(label + ": the victim stream could not be opened")
 			return
 		}
+	case "upgraded stream":
+		conn, err := net.DialTimeout("tcp", r.GW.Listener.Addr().String(), 20*time.Second)
+		if err != nil {
+			c.EngineError(label + ": dial: " + err.Error())
+			return
+		}
+		defer conn.Close()
+		_, _ = conn.Write([]byte("POST /api/v1/namespaces/ns/pods/p/exec?command=sh HTTP/1.1\r\nHost: a\r\nConnection: Upgrade\r\nUpgrade: SPDY/3.1\r\nX-Stream-Protocol-Version: v4.channel.k8s.io\r\nContent-Length: 0\r\n\r\n"))
+		_ = conn.SetReadDeadline(time.Now().Add(20 * time.Second))
+		var got []byte
+		b := make([]byte, 1)
+		for !strings.HasSuffix(string(got), "hello-from-upstream") {
+			n, err := conn.Read(b)
+			if n > 0 {
+				got = append(got, b[0])
+			}
+			if err != nil {
+				c.EngineError(label + ": the upgraded stream could not be established: " + string(got))
+				return
+			}
+		}
+		upgraded = conn
 	case "completed":
 		if resp, _, err := r.Do("GET", "a", "/api/v1/pods", nil, nil); err != nil || resp.StatusCode != 200 {
 			c.EngineError(label + ": the victim request did not complete")
@@ -297,6 +344,14 @@ func scenario(c *ev.Check, removal, phase string) {
 	case "streaming":
 		if !victim.endsWithin(prompt) {
 			viol("in-flight-stream-left-hanging", "the watch on the removed endpoint did not end within %v", prompt)
+		}
+	case "upgraded stream":
+		// the client side of the exec-like session must see its connection end
+		_ = upgraded.SetReadDeadline(time.Now().Add(prompt))
+		b := make([]byte, 16)
+		_, err := upgraded.Read(b)
+		if ne, ok := err.(net.Error); err == nil || ok && ne.Timeout() {
+			viol("upgraded-stream-left-open", "an upgraded (exec-like) session through the removed endpoint is still open %v after the removal", prompt)
 		}
 	}
 	if phase == "blocked before headers" || phase == "streaming" {
@@ -513,6 +568,82 @@ func lifecycle(c *ev.Check, life, removal string) {
 	_ = b1
 }
 
+// ---------------------------------------------------------------------------------------------------------------
+// "other clusters are unaffected": removals that are NOT about cluster a must leave it alone - in particular the
+// deletion of an object that never became a cluster because its name is one of a's server names.
+
+func bystanderOfForeignDelete(c *ev.Check, kind string) {
+	label := fmt.Sprintf("foreign removal=[%s]", kind)
+	viol := func(key, f string, a ...interface{}) {
+		c.Violation(key, label+": "+fmt.Sprintf(f, a...), map[string]string{"foreign_removal": kind})
+	}
+	ctl := ctlrig.New()
+	r := e2e.NewWithManager(ctl.C)
+	a1, b1 := e2e.NewUpstream("a-e1"), e2e.NewUpstream("b-e1")
+	g1 := install(a1)
+	_ = install(b1)
+	defer func() {
+		r.GW.CloseClientConnections()
+		r.Close()
+		a1.Server.CloseClientConnections()
+		b1.Server.CloseClientConnections()
+		a1.Close()
+		b1.Close()
+	}()
+	objA := e2e.ClusterObject("a", a1)
+	objA.Spec.SecureServing.ServerNames = []string{aliasA}
+	if _, err := ctl.Apply(objA); err != nil {
+		c.EngineError("apply a: " + err.Error())
+		return
+	}
+	objB := e2e.ClusterObject("b", b1)
+	_, _ = ctl.Apply(objB)
+	ciA, _ := ctl.C.Get("a")
+	if ciA == nil || !waitReady(ciA, a1.URL()) {
+		c.EngineError(label + ": the rig's cluster did not become ready")
+		return
+	}
+	ciA.VerifSetHealthCheckInterval(probeInterval)
+	watch, err := openStream(r, "a", "/api/v1/pods?watch=true")
+	if err != nil || !watch.nextChunk(20*time.Second) {
+		c.EngineError(label + ": the stream on cluster a could not be opened")
+		return
+	}
+	switch kind {
+	case "delete an object that was refused because its name is a server name of cluster a":
+		ghost := e2e.ClusterObject(strings.ToLower(aliasA), b1)
+		_, _ = ctl.Apply(ghost) // refused: the name belongs to a
+		_, _ = ctl.Delete(ghost)
+	case "delete another cluster":
+		_, _ = ctl.Delete(objB)
+	case "delete an object that never existed":
+		_, _ = ctl.Delete(e2e.ClusterObject("never-there", b1))
+	}
+	c.Add("scenarios", 1)
+	codes := map[int]int{}
+	for i, h := range []string{"a", aliasA, strings.ToLower(aliasA), "a", "A", aliasA} {
+		if resp, _, err := r.Do("GET", h, "/api/v1/pods", nil, nil); err == nil {
+			codes[resp.StatusCode]++
+		} else {
+			viol("bystander-request-error", "request #%d for host %q: %v", i, h, err)
+		}
+	}
+	c.Outcome("outcomes", fmt.Sprintf("foreign/%s/%v", kind, codes))
+	if codes[200] != 6 {
+		viol("bystander-cluster-not-served", "6 new requests for cluster a (which was not removed) under its names got %v", codes)
+	}
+	if ciA.Context().Err() != nil {
+		viol("bystander-cluster-stopped", "cluster a's context was cancelled")
+	}
+	if cur, ok := ctl.C.Get("a"); !ok || cur != ciA {
+		viol("bystander-cluster-replaced", "cluster a is no longer registered (or was replaced) after a removal that did not concern it")
+	}
+	g1.next <- struct{}{}
+	if !watch.nextChunk(15 * time.Second) {
+		viol("bystander-stream-broken", "the watch on cluster a did not receive its next chunk")
+	}
+}
+
 func (g *gate) send() {}
 
 func main() {
@@ -523,7 +654,7 @@ func main() {
 		"'health probing stops' is decided twice: on the removed endpoint's context being cancelled, and (lifecycle scenarios) on the probes that actually arrive at the stub upstream in the 600 ms after the removal with 10 ms probe loops: more than 3 arrivals = not stopped (a cancelled loop can deliver at most the probe in flight, the buffered token and one racing tick, whatever the timing; a live loop delivers about 60)",
 	}
 	removals := []string{"delete cluster", "remove endpoint e1", "delete and re-create cluster"}
-	phases := []string{"not issued", "blocked before headers", "streaming", "completed"}
+	phases := []string{"not issued", "blocked before headers", "streaming", "upgraded stream", "completed"}
 	var tasks []ev.Task
 	for _, rm := range removals {
 		for _, ph := range phases {
@@ -541,6 +672,10 @@ func main() {
 			l, rm := l, rm
 			tasks = append(tasks, ev.Task{Name: "lifecycle/" + l + "/" + rm, Run: func() { lifecycle(c, l, rm) }})
 		}
+	}
+	for _, k := range []string{"delete an object that was refused because its name is a server name of cluster a", "delete another cluster", "delete an object that never existed"} {
+		k := k
+		tasks = append(tasks, ev.Task{Name: "foreign/" + k, Run: func() { bystanderOfForeignDelete(c, k) }})
 	}
 	c.RunTasks(tasks)
 	c.Finish(map[string]interface{}{
